@@ -250,7 +250,7 @@ EXTRA10 = {
  "C12": "; InitGenesis creates the module account and compares its coins with the imported shares",
  "C18": "; wire integers are nil-tested before use in the stateless validation; the indexer recomputes the hash",
  "C19": "; the zero-height export removes hand-jailed validators from the power index",
- "C20": "; the capability memory store is rebuilt after the state is loaded",
+ "C20": "; the capability memory store is rebuilt after the state is loaded; the indexer service resumes inside the block store",
 }
 for _k, _c in EXTRA10.items():
     c0, n0, t0 = CLAIMS[_k]
